@@ -268,6 +268,9 @@ def check_record(ctx, r, v, rules, audit, pending):
     if cls == "io_uring":
         ok = any(x["kind"] == "io_uring" and v["requested"] in (F(x).get("Access") or []) for x in rules)
         return (ok, "io_uring: no rule for %s" % v["requested"], False)
+    if cls == "rlimit":
+        ok = any(x["kind"] == "rlimit" and F(x).get("Key") == v["rlimit"] and str(F(x).get("Value")) == v["value"] and F(x).get("Op") == "<=" for x in rules)
+        return (ok, "rlimit: no `set rlimit %s <= %s` rule" % (v["rlimit"], v["value"]), False)
     if cls == "userns":
         ok = any(x["kind"] == "userns" for x in rules)
         return (ok, "userns: no rule", False)
